@@ -2,8 +2,8 @@
 
 Two threshold oracles per generated scene (both thresholds are the property's own):
 
-(i)  residual energy: a zero-net-charge pulse is launched inside a box that is wrapped in PML (8..20 cells, an
-     independent thickness per face) on all six faces; the EnergyDetector trace over the interior (everything that is
+(i)  residual energy: a zero-net-charge pulse is launched inside a box that is wrapped in PML (8..20 cells, two
+     thicknesses per scene distributed over the faces) on all six faces; the EnergyDetector trace over the interior (everything that is
      not absorbing layer) must end below 1e-6 of its peak once the pulse had 2.5 domain crossings to leave.
 (ii) differential against free space: the same source / detector geometry is embedded in a plain domain that is so
      much larger that nothing can come back from its walls inside the comparison window (per-face margin from the
@@ -51,6 +51,10 @@ ASSUMPTIONS = [
     "outer wall of the farthest layer to return, capped for cost at pulse length + K cells of travel (quick: K = 44 "
     "f32 / 34 f64; thorough: 90 / 60) — cases whose window was capped are labelled window=capped; the echo of every "
     "face whose round trip is shorter than K is inside",
+    "'pulsed source' = a pulse the grid resolves: spectral peak at >= 15 cells per wavelength. Content below ~10 "
+    "cells per wavelength crawls on the Yee grid and has not left by the stated time with any absorber: a "
+    "derivative-of-Gaussian with sigma = 3 steps (10.8 cells) leaves 2.3e-6 of the peak in a 16^3 box in free space "
+    "(walls outside the light cone) and 6.7e-6 with 8-cell PML, while sigma >= 4 steps leaves <= 4e-9",
     "vacuum background (the default sigma grading assumes the vacuum impedance); float32 and float64 lanes use the "
     "same thresholds 1e-6 / 1e-4",
 ]
